@@ -5,7 +5,7 @@
 (* One action per public operation family.  Operations on registers are   *)
 (* total functions (or, where the properties leave freedom, relations)    *)
 (* of operand VALUES; Fn gives the function, Accept the relation.         *)
-EXTENDS Polynom
+EXTENDS Polynom, ElemOps
 
 VARIABLES regs, qs
 
